@@ -20,6 +20,9 @@ def content_for(cls, i):
         return ("local   v%d   =   %d\n" % (i, i)).encode()
     if cls == "unformatted_multi":
         return ("local   v%d   =   %d\nlocal t%d = {\n%d, %d }\nlocal w%d = 2\nlocal    z%d = 3\nreturn    v%d\n" % (i, i, i, i, i + 1, i, i, i)).encode()
+    if cls == "crlf":
+        # differs from its formatted form (default line_endings = Unix) only in the line terminators
+        return ("local v%d = %d\r\nlocal w%d = 2\r\n" % (i, i, i)).encode()
     if cls == "unparseable":
         return ("local v%d = (\n" % i).encode()
     if cls == "nonutf8":
